@@ -60,17 +60,63 @@ def _explore_one(arg):
     return out
 
 
+def _explore_child(arg, conn):
+    try:
+        conn.send(_explore_one(arg))
+    except Exception as err:  # pragma: no cover
+        conn.send({"engine_error": f"{type(err).__name__}: {err}", "trace": traceback.format_exc()[-800:]})
+    finally:
+        conn.close()
+
+
 def _explore_parallel(pid, indexes):
+    """one process per contract, at most PYVC_WORKERS at a time, each under a hard wall-clock limit (a stuck
+    solver call inside a worker cannot hang the check: the worker is killed and the contract is undecided)"""
+    import multiprocessing as mp
+
     if not indexes:
         return []
-    args = [(pid, i) for i in indexes]
-    workers = min(len(args), int(os.environ.get("PYVC_WORKERS", "14")))
-    if workers <= 1:
-        return [_explore_one(a) for a in args]
-    from concurrent.futures import ProcessPoolExecutor
-
-    with ProcessPoolExecutor(max_workers=workers) as pool:
-        return list(pool.map(_explore_one, args))
+    sys.path.insert(0, VERIF)
+    mod = importlib.import_module(f"contracts.{pid.lower()}")
+    allc = getattr(mod, "CONTRACTS")
+    workers = int(os.environ.get("PYVC_WORKERS", "14"))
+    results = [None] * len(indexes)
+    pending = list(enumerate(indexes))
+    running = {}  # slot -> (proc, conn, t0, limit)
+    ctx = mp.get_context("fork")
+    while pending or running:
+        while pending and len(running) < workers:
+            slot, index = pending.pop(0)
+            parent, child = ctx.Pipe(duplex=False)
+            proc = ctx.Process(target=_explore_child, args=((pid, index), child), daemon=True)
+            proc.start()
+            child.close()
+            budget = (getattr(allc[index], "time_budget", None) or 120)
+            running[slot] = (proc, parent, time.time(), budget * 2 + 60)
+        done = []
+        for slot, (proc, conn, t0, limit) in running.items():
+            if conn.poll(0.01):
+                try:
+                    results[slot] = conn.recv()
+                except EOFError:
+                    results[slot] = {"engine_error": "worker died without a result"}
+                proc.join(5)
+                done.append(slot)
+            elif not proc.is_alive():
+                results[slot] = {"engine_error": f"worker exited with code {proc.exitcode}"}
+                done.append(slot)
+            elif time.time() - t0 > limit:
+                proc.terminate()
+                proc.join(5)
+                if proc.is_alive():
+                    proc.kill()
+                results[slot] = {"unsupported": f"exploration killed after {int(limit)}s (hard wall-clock limit)", "fdesc": {}, "stats": {"paths": 0}, "exits": {}, "obligations": [], "trivial": []}
+                done.append(slot)
+        for slot in done:
+            running.pop(slot)
+        if not done:
+            time.sleep(0.05)
+    return results
 
 
 class Finite:
